@@ -361,7 +361,7 @@ def explore(ctx):
 
 def replay(record):
     imports()
-    if record.get('subcheck', '') == 'model-routes':
+    if record.get('subcheck', '') == 'model-routes' or 'spec' in (record.get('case') or {}):
         from . import c03_model
         return c03_model.replay(record)
     return core.replay_case(run_case, record)
